@@ -59,8 +59,8 @@ def project(msg):
     lit = msg._message
     m = msg.message
     if isinstance(m, str):
-        # PGPy hands out text: format 't' is decoded as latin-1, 'u' as UTF-8; re-encode the same way to get the content octets
-        m = m.encode('latin-1' if lit.format == 't' else 'utf-8')
+        # PGPy hands out text for formats 't' / 'u'; the content OCTETS are the literal's (the text itself is judged by the text events)
+        m = bytes(lit._contents)
     return {'content_sha': hashlib.sha256(bytes(m)).hexdigest(), 'content_len': len(m), 'filename': octets(msg.filename.encode('utf-8', 'surrogateescape')),
             'time': calendar.timegm(lit.mtime.utctimetuple()), 'format': lit.format, 'compression': int(msg._compression),
             'sigs': sorted(hashlib.sha256(bytes(s)).hexdigest() for s in msg.signatures), 'sensitive': bool(msg.is_sensitive)}
@@ -271,6 +271,57 @@ def foreign_imports(ctx, pgpy):
             ev.append({'k': 'import', 'label': 'foreign re-exported: ' + label, 'raised': False, 'before': before, 'after': {k: project(m2)[k] for k in before}, 'clause': 'C20.content'})
         except Exception as ex:
             ev.append({'k': 'import', 'label': 'foreign: ' + label, 'raised': True, 'before': before, 'after': {}, 'clause': 'C20.import', 'exc': repr(ex)[:100]})
+    # ---- histories on imported messages: signed AFTER import, exported, imported again (whatever header the literal arrived with, what is
+    #      written is a well-formed composition: the signature after the literal is found again)
+    from .. import keys as K_
+    sk_ = K_.new_key('ed25519', name='Import Signer', email='is@x.org')
+    for label, blob in variants + [('old format, indeterminate length', build.pkt(11, litbody, fmt='old', form=3)),
+                                   ('compressed, old format indeterminate length', build.pkt(8, b'\x02' + zlib.compress(build.pkt(11, litbody)), fmt='old', form=3))]:
+        want = content + (bytes(600) if 'partial' in label else b'')
+        before = {'content_sha': hashlib.sha256(want).hexdigest(), 'filename': octets(b'f.bin'), 'time': 1262304000, 'format': 'b', 'nsigs': 1, 'verifies': True}
+        try:
+            m = pgpy.PGPMessage.from_blob(blob)
+            m |= sk_.sign(m)
+            m2 = pgpy.PGPMessage.from_blob(bytes(m))
+            p = project(m2)
+            after = {k: p[k] for k in ('content_sha', 'filename', 'time', 'format')}
+            after['nsigs'] = len(m2.signatures)
+            try:
+                after['verifies'] = bool(sk_.pubkey.verify(m2))
+            except Exception:
+                after['verifies'] = False
+            ev.append({'k': 'import', 'label': 'foreign, signed after import, exported and imported again: ' + label, 'raised': False, 'before': before, 'after': after, 'clause': 'C20.sigs'})
+        except Exception as ex:
+            ev.append({'k': 'import', 'label': 'foreign, signed after import, exported and imported again: ' + label, 'raised': True, 'before': before, 'after': {}, 'clause': 'C20.import', 'exc': repr(ex)[:100]})
+    # ---- a one-pass signed message of another producer whose signature names its issuer by fingerprint only
+    fk_ = build.ForeignKey('ed25519')
+    fpub_ = pgpy.PGPKey.from_blob(build.transferable_key(fk_, [b'Foreign Signer <fs@example.org>']))[0]
+    for label, kw in (('issuer key id', {}), ('issuer fingerprint only', dict(issuer_in='none', hashed=[build.subpacket(33, b'\x04' + fk_.fingerprint)])),
+                      ('issuer fingerprint and key id', dict(hashed=[build.subpacket(33, b'\x04' + fk_.fingerprint)]))):
+        hashed = kw.pop('hashed', [])
+        sigp, _ = build.sig_packet(fk_, 0x00, 'sha256', hashed, [], build.subject_octets(0x00, doc=content), created=1262305000, **kw)
+        blob = build.pkt(4, bytes([3, 0, 8, 22]) + fk_.keyid + b'\x01') + build.pkt(11, litbody) + sigp
+        before = {'content_sha': hashlib.sha256(content).hexdigest(), 'nsigs': 1, 'signer': fk_.keyid.hex().upper(), 'verifies': True, 'reexport_same': True}
+        try:
+            m = pgpy.PGPMessage.from_blob(blob)
+            after = {'content_sha': project(m)['content_sha'], 'nsigs': len(m.signatures), 'signer': sorted(m.signers)[0] if m.signers else '', 'verifies': bool(fpub_.verify(m)),
+                     'reexport_same': bytes(m) == blob}
+            ev.append({'k': 'import', 'label': 'foreign one-pass signed message, ' + label, 'raised': False, 'before': before, 'after': after, 'clause': 'C20.sigs'})
+        except Exception as ex:
+            ev.append({'k': 'import', 'label': 'foreign one-pass signed message, ' + label, 'raised': True, 'before': before, 'after': {}, 'clause': 'C20.import', 'exc': repr(ex)[:100]})
+    # ---- text given as str comes back as the same str (formats 't' and 'u' and the default), directly and after export / import
+    for text in ('plain ascii\n', 'h\xe9llo w\xf6rld\n', 'Gr\xfc\xdfe \u2014 \u2713 \U0001f600\n'):
+        for fmt in (None, 't', 'u'):
+            label = 'text %r format %s' % (text[:8], fmt)
+            before = {'text': [ord(ch) for ch in text]}
+            try:
+                m = pgpy.PGPMessage.new(text, **({'format': fmt} if fmt else {}))
+                for route, mm in (('as created', lambda: m), ('exported and imported', lambda: pgpy.PGPMessage.from_blob(bytes(m))), ('armored and imported', lambda: pgpy.PGPMessage.from_blob(str(m)))):
+                    got = mm().message
+                    got = got if isinstance(got, str) else bytes(got).decode('utf-8', 'replace')
+                    ev.append({'k': 'import', 'label': label + ' ' + route, 'raised': False, 'before': before, 'after': {'text': [ord(ch) for ch in got]}, 'clause': 'C20.content'})
+            except Exception as ex:
+                ev.append({'k': 'import', 'label': label, 'raised': True, 'before': before, 'after': {}, 'clause': 'C20.import', 'exc': repr(ex)[:100]})
     for f in sorted(glob.glob('/repo/tests/testdata/messages/*.asc')):
         try:
             m = pgpy.PGPMessage.from_file(f)
